@@ -1,7 +1,7 @@
 META = {
     "level": "model_checking",
-    "technique": "TLA+ writer/reader state machine over a token wire (SftpAttr.tla: one Pack*/Unpack* step per flagged field group) model-checked by TLC over every presence combination x boundary values x extended maps and over sequences of independent attribute objects (what a block yields depends on its own input only); each TLC-emitted attribute set replayed through the real SFTPAttributes._pack/_unpack on a token-recording Message; recorded pack/unpack results of seeded random attribute sets validated by TLC against the same clause operators (SftpAttr_Trace.tla)",
-    "text": "TLC enumerates all 2^5 presence combinations of size, uid/gid, permissions, atime/mtime and extended attributes with boundary values (0, 1, 2^32-1, 2^32, 2^64-1 as 16-bit limbs; the quick tier uses 0, 2^32-1, 2^32, 2^64-1) and extended maps of 0-2 entries, checks on the model that the flag word is exactly the set of groups present, that the reader consumes exactly what the writer wrote, that absent fields are never decoded and that the decoded set equals the encoded one, and emits every attribute set with its token encoding; each is packed and unpacked by the real code and flags, written tokens, read tokens and decoded fields are judged by TLC; sets are run in sequences on newly created objects (SFTPAttributes(), from_stat, _from_msg; extended attributes assigned or set in place) so state leaking between objects fails the clauses of the later block; seeded random sequences add full-range 64/32-bit values, maps of up to 6 entries with str/bytes/non-ASCII/empty/long members, half-specified pairs and fractional times (the last two as conformance only)",
+    "technique": "TLA+ writer/reader state machine over a token wire (SftpAttr.tla: one Pack*/Unpack* step per flagged field group) model-checked by TLC over every presence combination x boundary values x extended maps and over sequences of independent attribute objects (what a block yields depends on its own input only) and over the lifecycle of one object (kept after _pack or _from_msg, fields set / cleared, encoded again: the stored flag word must play no role); each TLC-emitted attribute set replayed through the real SFTPAttributes._pack/_unpack on a token-recording Message; recorded pack/unpack results of seeded random attribute sets validated by TLC against the same clause operators (SftpAttr_Trace.tla)",
+    "text": "TLC enumerates all 2^5 presence combinations of size, uid/gid, permissions, atime/mtime and extended attributes with boundary values (0, 1, 2^32-1, 2^32, 2^64-1 as 16-bit limbs; the quick tier uses 0, 2^32-1, 2^32, 2^64-1) and extended maps of 0-2 entries, checks on the model that the flag word is exactly the set of groups present, that the reader consumes exactly what the writer wrote, that absent fields are never decoded and that the decoded set equals the encoded one, and emits every attribute set with its token encoding; each is packed and unpacked by the real code and flags, written tokens, read tokens and decoded fields are judged by TLC; sets are run in sequences on newly created objects (SFTPAttributes(), from_stat, _from_msg; extended attributes assigned or set in place) so state leaking between objects fails the clauses of the later block; seeded random sequences add full-range 64/32-bit values, maps of up to 6 entries with str/bytes/non-ASCII/empty/long members, half-specified pairs and fractional times (the last two as conformance only); a fixed stratum and seeded random object lifecycles encode one object repeatedly (the encoded or the _from_msg-decoded object is kept, groups are set / cleared, or nothing is changed, and it is encoded again) and every encoding is judged against the fields the object holds at that moment",
     "note": "trusted: TLC, the Message subclass that logs outermost add_*/get_* calls as tokens, int<->limb conversion; uid/gid and atime/mtime are one optional pair each and extended attributes are compared as byte strings (DESIGN.md Appendix F); byte layout of the tokens is C39's concern",
 }
 import random
@@ -15,9 +15,9 @@ SEQ = {"U32Vals": "U32One", "U64Vals": "U64One", "Keys": "KeysOne", "Vals": "Val
 FULL = {"U32Vals": "U32Full", "U64Vals": "U64Full", "Keys": "KeysTwo", "Vals": "ValsFull"}
 
 
-def cfg(subst, mutation="none", invariants=(), spec="Spec", fix=True, blocks=1, shared=False):
+def cfg(subst, mutation="none", invariants=(), spec="Spec", fix=True, blocks=1, shared=False, reuse=False):
     return (cfg_text(spec=spec, constants={"MaxExt": 1 if subst in (TINY, SEQ) else 2, "Mutation": mutation, "FixExtOrder": fix,
-                                           "MaxBlocks": blocks, "SharedExtMap": shared},
+                                           "MaxBlocks": blocks, "SharedExtMap": shared, "Reuse": reuse, "MaxEdits": 2 if reuse else 0},
                      invariants=invariants)
             + "CONSTANTS\n" + "".join("  %s <- %s\n" % kv for kv in subst.items()))
 
@@ -41,6 +41,13 @@ def show(b):
 
 
 def describe(rec):
+    if rec["origin"] != "fresh":          # a kept object: show what was edited and what the object then held
+        held = {k: codec.unlimbs(v[0]) for k, v in rec["attrs"].items() if k != "ext" and v}
+        return "%s object kept, edited %s ext %s, then holding %s ext %s -> flags %s, decoded %s ext %s, decoded flags %s" % (
+            "encoded" if rec["origin"] == "same" else "decoded", rec["input"]["values"], rec["input"]["ext"], held,
+            [(show(k), show(v)) for k, v in rec["attrs"]["ext"][:8]], hex(codec.unlimbs(rec["flags"])),
+            {k: codec.unlimbs(v[0]) for k, v in rec["dec"].items() if k != "ext" and v},
+            [(show(k), show(v)) for k, v in rec["dec"]["ext"][:8]], hex(codec.unlimbs(rec["rflags"])))
     return "attributes %s ext %s -> flags %s, decoded %s ext %s, decoded flags %s" % (
         rec["input"]["values"], rec["input"]["ext"], hex(codec.unlimbs(rec["flags"])),
         {k: codec.unlimbs(v[0]) for k, v in rec["dec"].items() if k != "ext" and v},
@@ -96,6 +103,55 @@ def random_case(rnd):
     return values, ext
 
 
+GROUPS = {"size": ("size",), "uidgid": ("uid", "gid"), "mode": ("mode",), "times": ("atime", "mtime")}
+SET = {"size": {"size": 2 ** 32 + 5}, "uidgid": {"uid": 1000, "gid": 100}, "mode": {"mode": 0o100644},
+       "times": {"atime": 1, "mtime": 2 ** 32 - 1}}
+EXT = [("k@x.y", b"\x00v")]
+
+
+def lifecycle_stratum():
+    """the fixed part: one object encoded, edited (every group set on / cleared from a few starting states, or nothing
+    changed) and encoded again - the object that was encoded ("same") and the one that was decoded ("decoded")"""
+    out = []
+    everything = dict(kv for g in SET.values() for kv in g.items())
+    n = 0
+    for origin in ("same", "decoded"):
+        for base, bext in (({"size": 7}, []), ({"mode": 0o755}, []), ({"uid": 0, "gid": 0}, [("a", "b")])):
+            steps = [(dict(SET[g]), None) for g in SET if not set(SET[g]) & set(base)] + ([({}, EXT)] if not bext else []) + [({}, None)]
+            for values, ext in steps:                       # set one group / set nothing, encode again
+                n += 1
+                out.append([(base, bext, codec.ATTR_MAKE[n % 2], "assign", codec.ATTR_READ[n % 2]),
+                            (values, ext, "init", codec.ATTR_SET[n % 2], codec.ATTR_READ[(n // 2) % 2], origin)])
+        for g in list(GROUPS) + ["ext"]:                    # clear one group of a full object, encode again
+            n += 1
+            edit = ({name: None for name in GROUPS[g]}, None) if g != "ext" else ({}, [])
+            out.append([(everything, EXT, "init", "assign", codec.ATTR_READ[n % 2]),
+                        edit + ("init", codec.ATTR_SET[n % 2], codec.ATTR_READ[(n // 2) % 2], origin)])
+    out.append([({"size": 7}, [], "init", "assign", "from_msg"), ({"mode": 0o644}, None, "init", "assign", "from_msg", "same"),
+                ({"size": None}, None, "init", "assign", "unpack", "same"), ({"atime": 5, "mtime": 6}, EXT, "init", "update", "from_msg", "decoded"),
+                ({}, None, "init", "assign", "from_msg", "decoded")])
+    return out
+
+
+def random_lifecycle(rnd):
+    """a new object, then 1-3 further encodings: of a new object, of the kept encoded object or of the kept decoded one,
+    with 0-2 groups set and at most one cleared in between"""
+    values, ext = random_case(rnd)
+    blocks = [(values, ext, rnd.choice(codec.ATTR_MAKE), rnd.choice(codec.ATTR_SET), rnd.choice(codec.ATTR_READ))]
+    for _ in range(rnd.randint(1, 3)):
+        origin = rnd.choice(["fresh", "same", "same", "decoded", "decoded"])
+        values, ext = random_case(rnd)
+        if origin != "fresh":
+            keep = rnd.sample(sorted(GROUPS), rnd.randint(0, 2))
+            values = {k: v for k, v in values.items() if any(k in GROUPS[g] for g in keep)}
+            if rnd.random() < 0.4:
+                for name in GROUPS[rnd.choice(sorted(GROUPS))]:
+                    values[name] = None
+            ext = (ext if rnd.random() < 0.7 else []) if rnd.random() < 0.3 else None
+        blocks.append((values, ext, rnd.choice(codec.ATTR_MAKE), rnd.choice(codec.ATTR_SET), rnd.choice(codec.ATTR_READ), origin))
+    return blocks
+
+
 def norm(block):
     """a decoded / expected attribute set with the extended map as a set (its order is not part of the property)"""
     return {k: (sorted(map(tuple, ((tuple(x), tuple(y)) for x, y in v))) if k == "ext" else v) for k, v in block.items()}
@@ -103,7 +159,7 @@ def norm(block):
 
 def judge(c, traces):
     """TLC judges every sequence; returns {trace number: {block numbers with a failed clause}}"""
-    fields = ("attrs", "fractional", "flags", "wtoks", "rflags", "rtoks", "dec", "aborted")
+    fields = ("attrs", "fractional", "flags", "wtoks", "rflags", "rtoks", "dec", "aborted", "origin", "edits")
     res, _ = c.trace("SftpAttr_Trace", [{"blocks": [{k: b[k] for k in fields} for b in t["blocks"]]} for t in traces],
                      cfg(TINY, invariants=["Report"], spec="TSpec"))
     if len(res["DONE"]) != len(traces):
@@ -129,8 +185,9 @@ def replay(c, rp):
     """bin/check C33 --replay replays/C33/<key>.json : the recorded sequence of attribute sets again"""
     import ast
     blocks = rp["blocks"] if "blocks" in rp else [rp]
-    t = codec.run_attr_sequence([(b["values"], [(ast.literal_eval(k), ast.literal_eval(v)) for k, v in b["ext"]],
-                                  b.get("make", "init"), b.get("setext", "assign"), b.get("read", "from_msg")) for b in blocks])
+    t = codec.run_attr_sequence([(b["values"], None if b["ext"] is None else [(ast.literal_eval(k), ast.literal_eval(v)) for k, v in b["ext"]],
+                                  b.get("make", "init"), b.get("setext", "assign"), b.get("read", "from_msg"), b.get("origin", "fresh"))
+                                 for b in blocks])
     c.case(key="replay", sample=[{k: b[k] for k in ("input", "flags", "dec")} for b in t["blocks"]])
     judge(c, [t])
     c.rule = "replay of one recorded sequence of attribute sets"
@@ -147,8 +204,14 @@ def run(c):
     cases = r.printed("CASE")
     if not cases or len(cases) * 13 != r.distinct:
         raise Machinery("expected one CASE per attribute set: %d cases, %d states" % (len(cases), r.distinct))
-    # ... and sequences of independent sets: what a block yields depends on that block's input only
-    c.mc_holds("SftpAttr", cfg(SEQ, invariants=invs, blocks=3), name="sequences of 3 independent attribute sets", workers=4)
+    # ... and sequences: independent sets on new objects (what a block yields depends on that block's input only) and
+    # the lifecycle of one object (kept after encoding / decoding, fields set and cleared, encoded again)
+    nb = 2 if c.quick else 3
+    c.mc_holds("SftpAttr", cfg(SEQ, invariants=invs, blocks=nb, reuse=True), workers=8,
+               name="sequences of %d encodings: new objects, kept and edited objects" % nb)
+    # _pack trusting the flag word a kept object carries from its previous encoding / decoding: must be refuted
+    c.mc("SftpAttr", cfg(SEQ, mutation="stale_flags", invariants=["PackOK"], blocks=2, reuse=True), expect="PackOK", workers=4,
+         name="stale flag word of a kept object trusted")
     # all new objects aliasing one extended map (mutable default argument) as a model: a later set without extended
     # attributes inherits them - the statement's invariants must fail
     c.mc("SftpAttr", cfg(SEQ, invariants=["AbsentStaysAbsent"], blocks=2, shared=True), expect="AbsentStaysAbsent",
@@ -185,6 +248,10 @@ def run(c):
             blocks.append((values, ext, rnd.choice(codec.ATTR_MAKE), rnd.choice(codec.ATTR_SET), rnd.choice(codec.ATTR_READ)))
             c.case(key=repr((sorted(values.items()), ext)))
         traces.append(codec.run_attr_sequence(blocks))
+    # ---- ... and object lifecycles: the fixed stratum, then seeded random ones
+    for blocks in lifecycle_stratum() + [random_lifecycle(rnd) for _ in range(300 if c.quick else 8000)]:
+        traces.append(codec.run_attr_sequence(blocks))
+        c.case(key=repr(blocks), n=len(blocks))
     flagged = judge(c, traces)
     # the direct comparison with what TLC emitted, block by block.  TLC (the oracle) has the last word: a block it
     # flags is reported whatever Python thinks; a block that merely differs from the emitted values in a way no clause
@@ -203,8 +270,10 @@ def run(c):
     c.rule = ("every attribute set over the 32 presence combinations x boundary values x extended maps of 0-2 entries "
               "(%d sets, TLC-enumerated, run three per sequence on new objects made by SFTPAttributes()/from_stat/_from_msg) + seeded "
               "random sequences of 2-4 sets (extended attributes first, then mostly none) with full-range values, maps up to 6 "
-              "entries, half pairs and fractional times; distinct = distinct attribute sets" % len(cases))
+              "entries, half pairs and fractional times + %d fixed and seeded random object lifecycles (an object encoded, kept - the "
+              "encoded one or the decoded one -, 0-2 groups set / one cleared, encoded again; up to 4 encodings); distinct = "
+              "distinct attribute sets / lifecycles" % (len(cases), len(lifecycle_stratum())))
     c.extra["exhaustive"] = True
     c.assumptions = ["uid/gid and atime/mtime are optional pairs; extended attribute names are distinct as byte strings",
                      "values are in range (sizes < 2^64, ids/modes/times < 2^32, non-negative)",
-                     "every attribute set is put on a newly created object; all sequences run in one process"]
+                     "an attribute set is put on a newly created object or results from editing the object encoded / decoded in the previous step; _unpack only ever fills a new object (as _from_msg does); all sequences run in one process"]
